@@ -252,16 +252,8 @@ def check(rep, tier, seed):
     scases, n_spl = stepped_cases(seed, tier)
     cases += scases
     core.run_cases(cases)
-    for c in cases:
-        rep.count_case(c)
-        hit = oracle(c)
-        if hit:
-            if core.handle_oracle_hit(rep, "C09", hit[1], c, hit[0], hit[1]):
-                return
-            continue
-        if c.diff() is not None:
-            core.handle_diff(rep, "C09", "correspondence", c)
-            return
+    if core.judge(rep, "C09", cases, oracle):
+        return
     if tier != "quick":
         # the real TiKV client's own "result undetermined" (the answer of the commit request is lost after the mock
         # cluster executed it; ~80 s of client back-off): it must be reported as an unknown outcome, not a definite error
